@@ -64,6 +64,9 @@ func (l lookupGSUB) isReverse() bool {
 
 func applyRecurseGSUB(c *otApplyContext, lookupIndex uint16) bool {
 	gsub := c.font.face.GSUB
+	if int(lookupIndex) >= len(gsub.Lookups) { // invalid nested lookup index
+		return false
+	}
 	l := lookupGSUB(gsub.Lookups[lookupIndex])
 	return c.applyRecurseLookup(lookupIndex, l)
 }
@@ -91,7 +94,7 @@ func (c *wouldApplyContext) wouldApplyGSUB(table tables.GSUBLookup) bool {
 		return len(c.glyphs) == 1 && ok
 
 	case tables.LigatureSubs:
-		if !ok {
+		if !ok || index >= len(data.LigatureSets) {
 			return false
 		}
 		ligatureSet := data.LigatureSets[index].Ligatures
@@ -155,7 +158,13 @@ func (c *otApplyContext) applyGSUB(table tables.GSUBLookup) bool {
 			c.replaceGlyph(GID(inner.SubstituteGlyphIDs[index]))
 		}
 
+	// the coverage index is not sanitized in tables.Parse: a format 2 coverage
+	// may return any index
+
 	case tables.MultipleSubs:
+		if index >= len(data.Sequences) {
+			return false
+		}
 		seq := data.Sequences[index].SubstituteGlyphIDs
 		// pathological cases: do not grow the buffer beyond its length budget
 		// (upstream fails the allocation in that case)
@@ -165,10 +174,16 @@ func (c *otApplyContext) applyGSUB(table tables.GSUBLookup) bool {
 		c.applySubsSequence(seq)
 
 	case tables.AlternateSubs:
+		if index >= len(data.AlternateSets) {
+			return false
+		}
 		alternates := data.AlternateSets[index].AlternateGlyphIDs
 		return c.applySubsAlternate(alternates)
 
 	case tables.LigatureSubs:
+		if index >= len(data.LigatureSets) {
+			return false
+		}
 		ligatureSet := data.LigatureSets[index].Ligatures
 		return c.applySubsLigature(ligatureSet)
 
@@ -195,6 +210,9 @@ func (c *otApplyContext) applyGSUB(table tables.GSUBLookup) bool {
 	case tables.ReverseChainSingleSubs:
 		if c.nestingLevelLeft != maxNestingLevel {
 			return false // no chaining to this type
+		}
+		if index >= len(data.SubstituteGlyphIDs) {
+			return false
 		}
 		lB, lL := len(data.BacktrackCoverages), len(data.LookaheadCoverages)
 
